@@ -19,7 +19,7 @@ from Cryptodome.PublicKey import ECC, RSA
 from . import gen, pkts, refcodec as rc
 from .common import raising_site
 
-from ndn.encoding import make_data, MetaInfo, Name
+from ndn.encoding import make_data, parse_data, MetaInfo, Name
 from ndn.security import KeychainSqlite3, TpmFile
 from ndn.security.keychain.keychain_sqlite3 import Identity, Key, Certificate
 from ndn.app_support.security_v2 import derive_cert
@@ -1280,6 +1280,80 @@ def root_identity_probe(ctx, rng):
             shutil.rmtree(root, ignore_errors=True)
 
 
+def lookalike_names_probe(ctx, rng):
+    """Key names and certificate names that differ only in the octet width of a number inside a typed component (54=%01 and
+    54=%00%01 print alike as v=1, they are different names): each signer signs with its own key and names its own certificate."""
+    for rep in range(ctx.n(2, 20)):
+        root = tempfile.mkdtemp(prefix='nvf-kc-')
+        try:
+            S = Store(root)
+            kc = S.kc
+            idn = [C(b'look'), C(b'alike')]
+            kc.touch_identity(idn)
+            typ = (0x36, 0x32, 0x3a)[rep % 3]
+            widths = [b'\x01', b'\x00\x01', b'\x00\x00\x00\x01'] if rep % 2 == 0 else [b'\x00\x00\x00\x00\x00\x00\x00\x07', b'\x07', b'\x00\x07']
+            keys = []
+            for wv in widths:
+                K = kc.new_key(idn, 'ec', key_id=rc.comp(typ, wv))
+                keys.append((tuple(bytes(c) for c in Name.normalize(K.name)), bytes(K.key_bits)))
+            if len({k for k, _ in keys}) != len(keys) or any(k[-1] != rc.comp(typ, wv) for (k, _), wv in zip(keys, widths)):
+                ctx.report('explicit-key-id-ignored:lookalike', 'keys created with key ids that differ only in number width do not carry those ids', None)
+                S.close()
+                continue
+            shared_locator = [C(b'some'), C(b'locator')]
+            for order in (keys, keys[::-1]):
+                for sel in ('locator', 'plain'):
+                    for kname, bits in order:
+                        ctx.event('signer-for-look-alike-key-names')
+                        ctx.case(('look-alike', sel, typ), nontrivial=True)
+                        args = {'key': list(kname)}
+                        if sel == 'locator':
+                            args['key_locator'] = list(shared_locator)
+                        try:
+                            sg = kc.get_signer(args)
+                        except Exception as e:   # noqa
+                            ctx.report(f'get-signer-raises:{type(e).__name__}@{raising_site(e)[0]}:lookalike', f'get_signer({sel}) for a key whose id is a typed number raised {e!r}', None)
+                            continue
+                        r = rc.strict_data(bytes(make_data([C(b'signed')], MetaInfo(), b'x', sg)))
+                        kl = r['sig_info']['key_name'] if r['sig_info'] else None
+                        want = tuple(shared_locator) if sel == 'locator' else tuple(bytes(c) for c in Name.normalize(kc[idn][list(kname)].default_cert().name))
+                        if not verify_sig(bits, r['signed_portion'], r['sig_value']):
+                            ctx.report('signer-wrong-private-key:lookalike-names', 'the signer obtained for one of two keys whose names differ only in the width of a number signs with the other key', {'selector': sel})
+                        elif kl is None or tuple(kl) != want:
+                            ctx.report('signer-wrong-key-locator:lookalike-names', 'the signer obtained for one of two keys whose names differ only in the width of a number names another certificate', {'selector': sel})
+            # two certificates of one key whose version differs only in width
+            kname, bits = keys[0]
+            own = kc[idn][list(kname)]
+            base_cert = own.default_cert()
+            cname = [bytes(c) for c in Name.normalize(base_cert.name)]
+            signer0 = kc.get_signer({'key': list(kname)})
+            cns = []
+            for wv in (b'\x05', b'\x00\x05'):
+                cn = cname[:-1] + [rc.comp(0x36, wv)]
+                _, _, content_, _ = parse_data(bytes(base_cert.data))
+                kc.import_cert(list(kname), cn, bytes(make_data(cn, MetaInfo(content_type=2, freshness_period=3600000), bytes(content_), signer0)))
+                cns.append(cn)
+            for order in (cns, cns[::-1]):
+                for cn in order:
+                    ctx.event('signer-for-look-alike-certificate-names')
+                    try:
+                        sg = kc.get_signer({'cert': list(cn)})
+                    except Exception as e:   # noqa
+                        ctx.report(f'get-signer-raises:{type(e).__name__}@{raising_site(e)[0]}:lookalike-cert', f'{e!r}', None)
+                        continue
+                    r = rc.strict_data(bytes(make_data([C(b'signed')], MetaInfo(), b'y', sg)))
+                    kl = r['sig_info']['key_name'] if r['sig_info'] else None
+                    if kl is None or tuple(kl) != tuple(cn):
+                        ctx.report('signer-wrong-key-locator:lookalike-names', 'the signer obtained for one of two certificates whose names differ only in the width of the version names the other one', {'selector': 'cert'})
+                    elif not verify_sig(bits, r['signed_portion'], r['sig_value']):
+                        ctx.report('signer-wrong-private-key:lookalike-names', 'the signer for a certificate does not sign with its key', {'selector': 'cert'})
+            S.close()
+        except Exception as e:   # noqa
+            ctx.report(f'lookalike-probe-raises:{type(e).__name__}@{raising_site(e)[0]}', f'{e!r}', None)
+        finally:
+            shutil.rmtree(root, ignore_errors=True)
+
+
 def optimised_interpreter_probe(ctx):
     """The same short history (two identities, an extra key, del_key, del_identity, a new identity) in a child interpreter started
     normally and one started with -O: what is left in the store is the same - one identity's rows and files, nothing of the deleted."""
@@ -1316,9 +1390,12 @@ def run(ctx):
     if ctx.shard == 0:
         stale_views(ctx, rng)
         root_identity_probe(ctx, rng)
+        lookalike_names_probe(ctx, rng)
         optimised_interpreter_probe(ctx)
         ctx.need_event('history-in-a-child-interpreter-with--O')
         ctx.need_event('signer-for-the-root-identity-by-name')
+        ctx.need_event('signer-for-look-alike-key-names')
+        ctx.need_event('signer-for-look-alike-certificate-names')
         ctx.need_event('stale-identity-view-probed')
     if ctx.shard == 0:
         bulk_scopes(ctx, rng)
